@@ -113,6 +113,7 @@ Proof.
     pose proof W_n as HWn. replace n with (S (n - 1)) in HWn at 1 by lia. rewrite W_S in HWn by lia. rewrite inject_Z_plus in HWn.
     fold (c_w (nthc cs (n - 1))) in HWn. pose proof (c_w_ge1 (nthc cs (n - 1))) as Hw1.
     assert (T - w (n - 1) <= rho * T); [|lra].
+    destruct (atm_bounds (nthc cs (n - 1))) as (S1 & S2 & S3). set (s0 := atm (nthc cs (n - 1))) in *.
     destruct Hr as [[_ Hr]|[_ Hr]]; rewrite Hr; q2; nra.
   - destruct (inner_bounds v x rho l u Hlu Hun Hc) as [B1 B2]. destruct (W_C l ltac:(lia)) as [WC1 _].
     assert (pl cs (m a) <= l)%nat; [|pose proof (W_le (pl cs (m a)) l ltac:(lia) ltac:(lia)); lra].
@@ -142,6 +143,7 @@ Proof.
   - (* left tail: rho * T <= max(1, w0/2) <= w0 *)
     pose proof (c_w_ge1 (nthc cs 0)) as Hw1.
     assert (rho * T <= w 0); [|lra].
+    destruct (atm_bounds (nthc cs 0)) as (S1 & S2 & S3). set (s0 := atm (nthc cs 0)) in *.
     destruct Hr as [[_ Hr]|[_ Hr]]; rewrite Hr; q2; nra.
   - lra.
   - destruct (inner_bounds v x rho l u Hlu Hun Hc) as [B1 B2]. destruct (W_C u Hun) as [_ WC2].
@@ -290,11 +292,24 @@ Definition dup_view : view := mkView 5 9 [(5, 10%positive); (5, 1%positive); (9,
 (* heavy first and last centroids, never produced in process *)
 Definition heavy_view : view := mkView 0 40 [(10, 10%positive); (20, 1%positive); (30, 10%positive)] 21.
 
-Lemma rank_mono_without_tight_ends_refuted :
-  exists v x y r r', wf_view v /\ x <= y /\ rank v x = Ok (Some r) /\ rank v y = Ok (Some r') /\ r' < r.
+(* the witness of the former known finding tdigest-D17 (rank was not monotone on it before the repair
+   30e007d): a unit first centroid that is not min; and the state reached from the valid heavy-end image
+   by update(5) *)
+Definition after_update_view : view := mkView 0 40 [(5, 1%positive); (10, 10%positive); (20, 1%positive); (30, 10%positive)] 22.
+
+Lemma unit_end_examples :
+  wf_view d17_view /\ ~ unit_ends_tight d17_view /\
+  (exists r0 r1 r2 r3, rank d17_view 0 = Ok (Some r0) /\ rank d17_view (1 # 2) = Ok (Some r1) /\ rank d17_view 5 = Ok (Some r2) /\
+     rank d17_view 10 = Ok (Some r3) /\ r0 == 1 # 48 /\ r1 == 1 # 24 /\ r2 == 1 # 24 /\ r3 == 1 # 24) /\
+  wf_view after_update_view /\ ~ unit_ends_tight after_update_view /\
+  (exists r1 r2 r3, rank after_update_view (1 # 2) = Ok (Some r1) /\ rank after_update_view 4 = Ok (Some r2) /\
+     rank after_update_view 5 = Ok (Some r3) /\ r1 == 1 # 44 /\ r2 == 1 # 44 /\ r3 == 1 # 44).
 Proof.
-  exists d17_view, (1 # 2), 5. eexists. eexists.
   split; [constructor; cbn; try discriminate; try reflexivity; repeat split; apply Qle_bool_iff; reflexivity|].
-  split; [apply Qle_bool_iff; reflexivity|]. split; [vm_compute; reflexivity|]. split; [vm_compute; reflexivity|].
-  reflexivity.
+  split; [intros [H _]; specialize (H eq_refl); revert H; apply Qlt_not_eq; reflexivity|].
+  split; [do 4 eexists; repeat (split; [vm_compute; reflexivity|]); repeat split; reflexivity|].
+  split; [constructor; cbn; try discriminate; try reflexivity; repeat split; apply Qle_bool_iff; reflexivity|].
+  split; [intros [H _]; specialize (H eq_refl); revert H; apply Qlt_not_eq; reflexivity|].
+  do 3 eexists; repeat (split; [vm_compute; reflexivity|]); repeat split; reflexivity.
 Qed.
+
